@@ -292,7 +292,7 @@ func cmdVerify(args []string) int {
 			if o.Cover && t > 6 {
 				t = 6 // vacuity checks are advisory: "unknown" is accepted
 			}
-			if matchKnown(knownList, *prop, o.Name) != nil {
+			if matchKnown(knownList, *prop, o.Name) != nil || *expectFail != "" {
 				// a recorded finding: one race, no second (longer) attempt
 				o.Result = solveOnce(q, tmp, o.Name, t, true)
 			} else {
